@@ -36,13 +36,14 @@ def plan(tier, seed):
     from vlib.runner import scaled
     n = scaled(NCASES[tier])
     units = [dict(kind='random', start=i, stop=min(n, i + CHUNK)) for i in range(0, n, CHUNK)]
-    ops = evgen.CHAINABLE
+    ops = evgen.chain_kinds()
     pairs = [(a, b) for a in ops for b in ops]
-    reps = 2 if tier == 'quick' else 6
+    reps = 2 if tier == 'quick' else 5
     for j in range(0, len(pairs), 40):
         units.append(dict(kind='chain', chains=pairs[j:j + 40], reps=reps))
     if tier == 'thorough':
-        triples = [(a, b, c) for a in ops for b in ops for c in ops]
+        ops3 = evgen.CHAINABLE
+        triples = [(a, b, c) for a in ops3 for b in ops3 for c in ops3]
         for j in range(0, len(triples), 60):
             units.append(dict(kind='chain', chains=triples[j:j + 60], reps=1))
     return units
